@@ -74,6 +74,9 @@ func (ap *AP) SetShape(s ...int) {
 			return
 		}
 
+		// the new shape is copied before the old one is handed back to the pool (which zeroes it): s may be the old
+		// shape itself, as in t.Reshape(t.Shape()...)
+		newShape := Shape(s).Clone()
 		if ap.shape != nil {
 			ReturnInts(ap.shape)
 			ap.shape = nil
@@ -82,7 +85,7 @@ func (ap *AP) SetShape(s ...int) {
 			ReturnInts(ap.strides)
 			ap.strides = nil
 		}
-		ap.shape = Shape(s).Clone()
+		ap.shape = newShape
 		ap.strides = ap.calcStrides()
 	}
 }
